@@ -48,6 +48,8 @@ class AnyVals:
             return SAny(A.o(v.t))
         if isinstance(v, (SAbs, STuple, SList, SSet)):
             return SAny(A.o(fresh_int('obj')))
+        if isinstance(v, SVal):
+            return SAny(A.o(fresh_int('valobj')))      # an arithmetic value stored in a dictionary: opaque
         raise Unsupported('to_any %r' % (v,))
 
     def any_is_num(self, a):
